@@ -446,8 +446,13 @@ func (f *Frame) execAppend(instr ssa.Instruction, args []*V, st *State, rt types
 		} else if t.Sl.Len.S == "1" {
 			cont = u.fresh("appended", inner)
 			iq := T{"i!q", SInt}
-			u.assume(st, T{fmt.Sprintf("(forall ((i!q Int)) (! (=> (and (<= 0 i!q) (< i!q %s)) (= (select %s i!q) (select %s %s))) :pattern ((select %s i!q))))",
-				s.Sl.Len.S, cont.S, olds.S, u.sidx(s.Sl.Off, iq).S, cont.S), SBool})
+			pat2 := ""
+			if s.Sl.Off.S != "0" {
+				// a position of the old slice that is mentioned anywhere also names the copied element
+				pat2 = " :pattern (" + u.sidx(s.Sl.Off, iq).S + ")"
+			}
+			u.assume(st, T{fmt.Sprintf("(forall ((i!q Int)) (! (=> (and (<= 0 i!q) (< i!q %s)) (= (select %s i!q) (select %s %s))) :pattern ((select %s i!q))%s))",
+				s.Sl.Len.S, cont.S, olds.S, u.sidx(s.Sl.Off, iq).S, cont.S, pat2), SBool})
 			u.assume(st, eq(sel(cont, s.Sl.Len), sel(oldt, t.Sl.Off)))
 		} else {
 			cont = u.fresh("appended", inner)
